@@ -17,7 +17,8 @@ class Unknown(Exception):
 
 
 class BreakEx(Exception):
-    pass
+    def __init__(self, value=()):
+        self.value = value
 
 
 class ContinueEx(Exception):
@@ -208,7 +209,7 @@ class PyClosure:
 
 
 LIST_IDENTITY = ("core::slice::<impl [T]>::iter", "core::ops::deref::Deref::deref", "core::ops::deref::DerefMut::deref_mut", "core::slice::<impl [T]>::iter_mut", "core::iter::traits::collect::IntoIterator::into_iter",
-                 "alloc::vec::Vec::<T, A>::as_slice", "core::iter::traits::iterator::Iterator::collect", "core::iter::traits::iterator::Iterator::copied",
+                 "alloc::vec::Vec::<T, A>::as_slice", "core::iter::traits::iterator::Iterator::copied",
                  "core::iter::traits::iterator::Iterator::cloned", "alloc::slice::<impl [T]>::to_vec")
 
 
@@ -441,7 +442,16 @@ class Interp:
         if k == "Return":
             raise ReturnEx(self.ev(e["e"], env, depth) if "e" in e else ())
         if k == "Break":
-            raise BreakEx()
+            raise BreakEx(self.ev(e["e"], env, depth) if "e" in e else ())
+        if k == "Loop":
+            for _ in range(self.max_loop):
+                try:
+                    self.ev(e["body"], env, depth)
+                except BreakEx as b:
+                    return b.value
+                except ContinueEx:
+                    continue
+            raise Unknown("loop does not end within %d iterations" % self.max_loop)
         if k == "Continue":
             raise ContinueEx()
         if k == "Index":
@@ -631,6 +641,32 @@ class Interp:
             raise Unknown("? on %r" % (v,))
         if gen == "core::ops::try_trait::FromResidual::from_residual":
             return self.ev(args[0], env, depth)
+        if gen in ("core::iter::traits::collect::FromIterator::from_iter", "core::iter::traits::iterator::Iterator::collect"):
+            v = self.ev(args[0], env, depth)
+            if isinstance(v, Ref):
+                v = v.get()
+            if isinstance(v, HSet):
+                v = self.hash_order(list(v.items))
+            if isinstance(v, HMap):
+                v = self.hash_order([(k_, x_) for k_, x_ in v.items()])
+            if not isinstance(v, (list, tuple)):
+                raise Unknown("collect of %r" % (v,))
+            ty = (e.get("ty") or "").replace("std::collections::hash::set::", "").replace("std::collections::hash::map::", "").replace("std::collections::", "")
+            if ty.startswith("HashSet<"):
+                return HSet(v)
+            if ty.startswith("HashMap<"):
+                hm = HMap()
+                for kv in v:
+                    hm.put(kv[0], kv[1])
+                return hm
+            if "Result<" in ty.split("Vec<")[0] and "Vec<" in ty:
+                out = []
+                for x in v:
+                    if isinstance(x, Enum) and x.variant == "Err":
+                        return x
+                    out.append(x.fields.get("0") if isinstance(x, Enum) and x.variant == "Ok" else x)
+                return Enum("Result", "Ok", {"0": out})
+            return list(v)
         if gen in LIST_IDENTITY:
             v = self.ev(args[0], env, depth)
             if isinstance(v, (list, tuple)) or gen.endswith(("Deref::deref", "DerefMut::deref_mut")):
@@ -1004,6 +1040,21 @@ class Interp:
             if isinstance(a, (int, float)) and isinstance(b, (int, float)):
                 return {"lt": a < b, "le": a <= b, "gt": a > b, "ge": a >= b}[gen[-2:]]
             raise Unknown("ordering on non-numbers (derived PartialOrd is resolved by rules)")
+        if gen == "core::clone::Clone::clone":
+            v0 = self.ev(args[0], env, depth)
+            if isinstance(v0, Ref):
+                v0 = v0.get()
+            if isinstance(v0, HSet):
+                return HSet(v0.items)
+            if isinstance(v0, HMap):
+                c_ = HMap()
+                for k_, x_ in v0.items():
+                    c_.put(k_, x_)
+                return c_
+            if isinstance(v0, list):
+                return list(v0)
+            if self.facts.bodies.get(cal) is None:
+                return v0
         if gen in ("core::convert::From::from", "core::convert::Into::into", "core::clone::Clone::clone",
                    "alloc::boxed::Box::<T>::new"):
             v = self.ev(args[0], env, depth)
@@ -1082,7 +1133,8 @@ class Interp:
         if m in ("new", "with_capacity", "default"):
             return HSet() if is_set else HMap()
         recv = self.ev(args[0], env, depth)
-        if isinstance(recv, Ref) and not isinstance(recv, MapSlot):
+        on_container = "::set::HashSet" in gen or "::map::HashMap" in gen
+        if isinstance(recv, Ref) and (on_container or not isinstance(recv, MapSlot)):
             recv = recv.get()
         ev = lambda i: self.ev(args[i], env, depth)
         if isinstance(recv, HSet):
